@@ -14,6 +14,7 @@
  * along with this program.  If not, see <https://www.gnu.org/licenses/>.
  */
 
+use std::io::ErrorKind;
 use std::path::Path;
 use ignore::gitignore::{Gitignore, GitignoreBuilder};
 use log::info;
@@ -47,5 +48,16 @@ pub fn ignore_filter(entry: &DirEntry, ignore: &Option<Gitignore>) -> bool {
             let m = gi.matched(path, path.is_dir());
             !m.is_ignore()
         }
+    }
+}
+
+/// Like [Path::is_dir()], except that a failing `stat` is reported
+/// rather than read as "not a directory"; only a missing entry is
+/// `false`.
+pub fn is_dir(path: &Path) -> Result<bool> {
+    match path.metadata() {
+        Ok(m) => Ok(m.is_dir()),
+        Err(e) if e.kind() == ErrorKind::NotFound => Ok(false),
+        Err(e) => Err(e.into()),
     }
 }
